@@ -83,6 +83,38 @@ def rule_VA5(ctx, rule):
               ok, f'arguments {kws} do not map the gradient on the '
               'computational grid back to the model grid',
               ctx.where(sm, cs[0]))
+    # the transposed average is left out ONLY for identical grids (equal
+    # shapes are not equal grids: same cell numbers, other widths or origin)
+    if gf and fin:
+        from ..core.canon import negate
+        from ..core.template import same
+        G, gr, gfn = fin[0][1]['_G_'], gf[0][1]['_grad_'], gf[0][1]['_g_']
+        eq = f'self.model.grid == {gfn}.grid'
+
+        def conds(node):
+            return [t if pol else negate(t)
+                    for t, pol in au.guards_of(node, g)]
+        direct = [n for n in ast.walk(g) if isinstance(n, ast.AugAssign) and
+                  isinstance(n.op, ast.Add) and ast.unparse(n.target) == G
+                  and ast.unparse(n.value) == gr]
+        for n in direct:
+            ctx.check(rule, 'gradient added directly only on the model grid',
+                      any(same(eq, c) is not None for c in conds(n)),
+                      f'`{au.stext(n)}` (no transposed volume average) is '
+                      f'reached under {[ast.unparse(c) for c in conds(n)]}, '
+                      'not under equality of model grid and computational '
+                      'grid: a computational grid with the same shape but '
+                      'other cell widths adds its gradient cell by cell',
+                      ctx.where(sm, n))
+        other = [c for c in conds(cs[0]) if same(
+            f'self.model.grid != {gfn}.grid', c) is None and
+            {x.id for x in ast.walk(c) if isinstance(x, ast.Name)} &
+            {G, gr, gfn}]
+        ctx.check(rule, 'transposed average applied whenever the grids '
+                  'differ', not other or bool(direct), 'the call of '
+                  '_interp_volume_average_adj depends on '
+                  f'{[ast.unparse(c) for c in other]} and there is no direct '
+                  'accumulation for the remaining case', ctx.where(sm, cs[0]))
 
 
 def run(ctx):
